@@ -254,30 +254,50 @@ def check(run: Run) -> None:
 
     # ---- R2: which files
     fa = model.func(F_ALL)
-    consts = {k: v for k, v in fa.module.assigns.items()}
-    globs = []
-    for c in find_calls(fa.node, "rglob"):
-        a0 = c.args[0] if c.args else None
-        if isinstance(a0, ast.Constant):
-            globs.append(a0.value)
-        elif isinstance(a0, ast.Name):
-            # rglob(p) for p in CONSTANT_TUPLE
-            src_iter = None
-            for comp in ast.walk(fa.node):
-                if isinstance(comp, ast.comprehension) and isinstance(comp.target, ast.Name) and comp.target.id == a0.id:
-                    src_iter = comp.iter
-                if isinstance(comp, ast.For) and isinstance(comp.target, ast.Name) and comp.target.id == a0.id:
-                    src_iter = comp.iter
-            if isinstance(src_iter, ast.Name) and src_iter.id in consts:
-                src_iter = consts[src_iter.id]
-            if isinstance(src_iter, (ast.Tuple, ast.List)) and all(isinstance(e, ast.Constant) for e in src_iter.elts):
-                globs.extend(e.value for e in src_iter.elts)
+    # by an abstract run: the directory object answers every (r)glob with one marker path per pattern and records the pattern; what the function yields is compared with the markers
+    from ..absint import Interp as _I, Raised as _R, State as _S
+    from ..absval import HObj as _H, Opaque as _O, Ref as _Ref
+
+    asked: list = []
+
+    def _pm(I2, recv, name, args, kwargs, st, node):
+        if recv.cls == "vdir" and name in ("rglob", "glob") and args and isinstance(args[0], str):
+            asked.append((name, args[0]))
+            return [(st.alloc(_H("list", items=[_O("vfile", f"{name}:{args[0]}")])), st)]
+        if recv.cls == "vdir" and name in ("resolve", "absolute", "expanduser"):
+            return [(recv, st)]
+        return None
+
+    def _call_any(I2, fv, args, kwargs, st, node):
+        if fv.cls in ("ext:pathlib.Path", "ext:pathlib.PurePath") and args and isinstance(args[0], _O) and args[0].cls == "vdir":
+            return [(args[0], st)]
+        return None
+
+    I_all = _I(model, probes={"method:vdir": _pm, "method:*": _pm, "call:*": _call_any})
+    globs, nonrec, yielded = None, [], None
+    try:
+        res_all = I_all.run_function(F_ALL, [_O("vdir", "/Z")], st=_S())
+    except Exception as e:  # noqa: BLE001
+        res_all = None
+        run.undecided("C14.R2", "get_all_zfiles", f"cannot interpret: {type(e).__name__}: {str(e)[:100]}")
+    if res_all is not None:
+        if len(res_all) != 1 or isinstance(res_all[0][0], _R):
+            run.undecided("C14.R2", "get_all_zfiles", f"{len(res_all)} outcomes / raises on a concrete directory")
+        else:
+            v_all, st_all = res_all[0]
+            items = I_all.B.iter_values(I_all, v_all, st_all)
+            if items is None or st_all.imprecise:
+                run.undecided("C14.R2", "get_all_zfiles", "; ".join(st_all.imprecise[:2]) or f"returns {v_all!r}, which cannot be iterated abstractly")
             else:
-                globs.append(f"<{ast.unparse(a0)}>")
-    globs = sorted(globs)
-    nonrec = find_calls(fa.node, "glob")
-    run.check("C14.R2", "all *.zo, *.zot and *.zoq files are visited recursively", globs == ["*.zo", "*.zoq", "*.zot"] and not nonrec, "get_all_zfiles", f"globs {globs}",
-              f"get_all_zfiles visits {globs}{' (non-recursive glob used)' if nonrec else ''}, not exactly *.zo, *.zot, *.zoq recursively", file=fa.file, node=fa.node)
+                yielded = sorted(x.tag if isinstance(x, _O) else repr(x) for x in items)
+                pats = sorted(p[3:] if (n == "glob" and p.startswith("**/")) else p for n, p in asked)
+                nonrec = [p for n, p in asked if n == "glob" and not p.startswith("**/")]
+                globs = pats
+                run.check("C14.R2", "all *.zo, *.zot and *.zoq files are visited recursively", globs == ["*.zo", "*.zoq", "*.zot"] and not nonrec, "get_all_zfiles", f"globs {globs}",
+                          f"get_all_zfiles visits {globs}{' (non-recursive glob used)' if nonrec else ''}, not exactly *.zo, *.zot, *.zoq recursively", file=fa.file, node=fa.node)
+                want_y = sorted(f"{n}:{p}" for n, p in asked)
+                run.check("C14.R2", "get_all_zfiles yields every file its globs found, once", yielded == want_y, "get_all_zfiles", f"yields {yielded}",
+                          f"get_all_zfiles yields {yielded} for globs answering {want_y}: files found are dropped or repeated (links inside dropped files keep the old name)", file=fa.file, node=fa.node)
     from ..util import filtering_constructs
 
     flt = [x for x in filtering_constructs(fa.node)]
